@@ -208,7 +208,6 @@ Lemma expand_total_amount_lemma d l :
   = zsum (map (fun r => (r_addl r + 1) * r_amt r) (ds_rows d)).
 Proof.
   intros Ha G. unfold expand_impl. rewrite Ha. cbn [negb].
-  destruct (has_evid (ds_sch d) && negb (id_named_ID (ds_sch d))); [discriminate|].
   destruct (negb (range_index (ds_sch d)) && existsb _ (ds_rows d)); [discriminate|].
   intros H. injection H as <-. rewrite relabel_amounts.
   rewrite (zsum_perm _ _ (Permutation_map _ (expand_core_perm (ds_sch d) (ds_rows d)))).
@@ -593,8 +592,7 @@ Proof.
   apply andb_prop in G. destruct G as [Glab Gids].
   unfold expand_impl. destruct (negb (has_addl (ds_sch d) && has_ii (ds_sch d))).
   - intros H. injection H as <-. apply noop_originals.
-  - destruct (has_evid (ds_sch d) && negb (id_named_ID (ds_sch d))); [discriminate|].
-    destruct (negb (range_index (ds_sch d)) && existsb _ (ds_rows d)); [discriminate|].
+  - destruct (negb (range_index (ds_sch d)) && existsb _ (ds_rows d)); [discriminate|].
     intros H. injection H as <-. rewrite relabel_originals.
     rewrite <- (expand_core_originals (ds_sch d) (ds_rows d) Glab Gids Gchr) at 2.
     rewrite map_map. reflexivity.
